@@ -57,14 +57,13 @@ MC_VOdd == {"1", "1.0", "1.x", "x"}
 MC_Eager == {FALSE}
 MC_Both == {TRUE, FALSE}
 \* <<clause, cause>> pairs broken by the DESIGN as transcribed in the I-layer (each is replayed on the real code)
-MC_KnownDesign == {<<"Refused", "versionless_mismatch">>, <<"LoadedRight", "versionless_mismatch">>,
-                   <<"DepsClosed", "closure_conflict">>, <<"LoadedRight", "closure_conflict">>,
-                   <<"DepsOutcome", "closure_conflict">>, <<"EagerStable", "closure_conflict">>,
-                   <<"ZoneConsistent", "lazy_upgrade">>, <<"LazyStable", "lazy_upgrade">>,
-                   <<"LazyStable", "lazy_dependency">>,
-                   <<"ZoneConsistent", "mem_other_version">>, <<"LazyStable", "mem_other_version">>,
-                   <<"DepsClosed", "mem_other_version">>, <<"ResultKind", "mem_other_version">>}
+MC_KnownDesign == {}
 MC_None == {}
+\* what-if switches of the witness configurations (deviations of the code before the fix: commits)
+MC_DevVersionless == {"versionless_mismatch"}
+MC_DevLazyKey == {"lazy_key_reuse"}
+MC_DevMem == {"mem_conflict_dead", "closure_replace"}
+MC_DevClosure == {"closure_replace"}
 MC_Skip == {<<"SKIP", "SKIP">>}
 \* witness searches: TLC's counterexample to "no step has this root cause" is replayed on the real code
 NoW_versionless == \A b \in last.broken : b[2] # "versionless_mismatch"
